@@ -2929,7 +2929,13 @@ def eye(N: int, M: int | None = None, k: int = 0,  # noqa: N803
     if not isinstance(k, INT_CLASSES):
         raise ValueError(f"k must be int, got {type(k)}.")
 
-    return IndexLambda(expr=prim.If(parse(f"(_1 - _0) == {k}"), 1, 0),
+    dtype = np.dtype(dtype)
+    # typed constants: an untyped '1' makes consumers inlined around it (e.g.
+    # pt.exp(pt.eye(n))) operate on an integer (booleans: see full())
+    one, zero = ((1, 0) if dtype == _BOOL_DTYPE
+                 else (dtype.type(1), dtype.type(0)))
+
+    return IndexLambda(expr=prim.If(parse(f"(_1 - _0) == {k}"), one, zero),
                        shape=(N, M), dtype=dtype, bindings=constantdict({}),
                        tags=_get_default_tags(),
                        non_equality_tags=_get_created_at_tag(),
